@@ -71,6 +71,29 @@ def case_coq(inst):
         coq_list([step_coq(s) for s in inst["steps"]]), coq_list(imgs))
 
 
+def coq_tuples(body, arity):
+    """all tuples of `arity` numbers in the printed list `body`; None when some printed tuple could not be read.
+    Coq's printer breaks lines anywhere - also right after an opening parenthesis - and adds scope suffixes (3%nat)."""
+    flat = re.sub(r"%\w+", "", re.sub(r"\s+", "", body))
+    tups = re.findall(r"\((-?\d+(?:,-?\d+){%d})\)" % (arity - 1), flat)
+    if len(tups) != flat.count("("):
+        return None
+    return [tuple(int(x) for x in t.split(",")) for t in tups]
+
+
+def eval_tuples(o, rc, arity):
+    """the mismatch tuples printed for M by a scratch evaluation; None when it failed or could not be read completely"""
+    m = re.search(r"M\s*=\s*(.*?)\s*:\s*list", o, re.S)
+    return coq_tuples(m.group(1), arity) if rc == 0 and m else None
+
+
+def canary_case(t):
+    """a copy of the case text `t` in which the first non-empty listing of visible files of a crash image names another
+    content for its first file (None when there is no such listing)"""
+    m = re.search(r"(mkimg (?:None|\(Some \d+%nat\)) (?:None|\(Some \d+%nat\)) \[\(\d+%N, )(\d+)(%N\))", t)
+    return t[:m.start(2)] + str(int(m.group(2)) + 7) + t[m.end(2):] if m else None
+
+
 CODES = {1: "step list does not start with create/write/sync of the intent log", 2: "intent log names other files than the replaced/new ones",
          3: "steps between log sync and log removal are not exactly renames of the new files and deletions of the old files",
          4: "deletions after the log removal are not the out-of-order inputs in order", 5: "out-of-order inputs not deleted oldest first",
@@ -437,15 +460,32 @@ def main(ck):
                "Definition cases : list ccase := [\n%s\n].\n"
                "Definition M := Eval vm_compute in mismatches cases.\nPrint M.\n") % ";\n".join(case_coq(t) for t in chunk)
         files.append(("c03cases%d" % (i // shard), txt))
+    # canary: 20 copies of a protocol instance with one observed crash image changed MUST all be reported (20: the printed
+    # list is then wrapped over several lines, also right after an opening parenthesis, as real results are)
+    NCAN = 20
+    canary = next((x for x in (canary_case(case_coq(t)) for t in mod) if x), None) if ok else None
+    if canary:
+        files.append(("c03canary", "From Coq Require Import NArith ZArith List Bool. From OG Require Import C03.Model C03.Corr.\n"
+                      "Import ListNotations. Open Scope N_scope.\n"
+                      "Definition cases : list ccase := [\n%s\n].\n"
+                      "Definition M := Eval vm_compute in mismatches cases.\nPrint M.\n" % ";\n".join([canary] * NCAN)))
     res = ck.coq_eval_many(files) if ok else []
+    if canary:
+        rc2, o = res.pop()
+        tups = eval_tuples(o, rc2, 3)
+        if tups is None or {t[0] for t in tups} != set(range(NCAN)):
+            ck.broken.append("C03 canary: a corrupted case was not reported by the model evaluation (%d copies of a protocol instance "
+                             "with one changed crash image; read back: %s)" % (NCAN, o[-300:] if tups is None else sorted(tups)[:NCAN]))
+    elif ok and mod and not ck.replay:
+        ck.broken.append("C03 canary: no protocol instance with a non-empty crash image to build the corrupted case from")
     mism = []
     for idx, (rc2, o) in enumerate(res):
-        m = re.search(r"M\s*=\s*(.*?)\s*:\s*list", o.replace("%nat", ""), re.S)
-        if rc2 != 0 or not m:
+        tups = eval_tuples(o, rc2, 3)
+        if tups is None:
             ck.broken.append("model evaluation failed on shard %d: %s" % (idx, o[-400:]))
             continue
-        for a, b, c in re.findall(r"\((\d+),\s*(\d+),\s*(\d+)\)", m.group(1)):
-            mism.append((mod[idx * shard + int(a)], int(b), int(c)))
+        for a, b, c in tups:
+            mism.append((mod[idx * shard + a], b, c))
     # ---- column-level model evaluation (compactions outside the segment-limit cases) ----
     colmod = []
     for ci in cols:
@@ -469,16 +509,16 @@ def main(ck):
     colmism = []
     col_current = 0
     for idx, (rc2, o) in enumerate(cres):
-        m = re.search(r"M\s*=\s*(.*?)\s*:\s*list", o.replace("%nat", ""), re.S)
-        if rc2 != 0 or not m:
+        tups = eval_tuples(o, rc2, 3)
+        if tups is None:
             ck.broken.append("column model evaluation failed on shard %d: %s" % (idx, o[-400:]))
             continue
-        for a, b, c in re.findall(r"\((\d+),\s*(\d+),\s*(\d+)\)", m.group(1)):
-            ci, ser = colmod[idx * cshard + int(a)]
-            if int(c) == 0 and pad_segment_signature(ci) and ck.match_finding("C03-pad-segment-size"):
+        for a, b, c in tups:
+            ci, ser = colmod[idx * cshard + a]
+            if c == 0 and pad_segment_signature(ci) and ck.match_finding("C03-pad-segment-size"):
                 col_current += 1     # the tree pads by counter arithmetic (today's code) on a distinguishing input
             else:
-                colmism.append(((ci, ser), int(b)))
+                colmism.append(((ci, ser), b))
     if colmism and not oracle and not col_viol:
         (ci, ser), code = colmism[0]
         ck.broken.append("correspondence C03 column model/implementation differs: column case %d op %s series %d: %s" % (
@@ -504,18 +544,18 @@ def main(ck):
     fmism = []
     f_current = 0
     for idx, (rc2, o) in enumerate(fres):
-        m = re.search(r"M\s*=\s*(.*?)\s*:\s*list", o.replace("%nat", ""), re.S)
-        if rc2 != 0 or not m:
+        tups = eval_tuples(o, rc2, 4)
+        if tups is None:
             ck.broken.append("fault model evaluation failed on shard %d: %s" % (idx, o[-400:]))
             continue
-        for a, b, c, d in re.findall(r"\((\d+),\s*(\d+),\s*(\d+),\s*(\d+)\)", m.group(1)):
-            fi, _, runs = fmod[idx * fshard + int(a)]
-            if int(d) == 0 and int(c) != 60:
+        for a, b, c, d in tups:
+            fi, _, runs = fmod[idx * fshard + a]
+            if d == 0 and c != 60:
                 f_current += 1      # the tree implements today's delete loop (variant Current) on a distinguishing run
                 if not ck.match_finding("C03-replace-delete-abort"):
-                    fmism.append((fi, runs[int(b)], int(c)))
+                    fmism.append((fi, runs[b], c))
             else:
-                fmism.append((fi, runs[int(b)] if int(c) != 60 else runs[0], int(c)))
+                fmism.append((fi, runs[b] if c != 60 else runs[0], c))
     if fmism and not oracle and not col_viol and not f_viol and not cur_viol:
         fi, r, code = fmism[0]
         ck.broken.append("correspondence C03 fault model/implementation differs: fault case %d op %s %s at %s: %s" % (
